@@ -64,7 +64,7 @@ static void prop(Tape &t, Ctx &c) {
     vfh_entropy_reset(77 + (uint32_t) r1 % 1000); vfh_clock_set_ms(1000000);
 
     Pair p; Config cc, sc; cc.client = true; sc.client = false; cc.versions = sc.versions = { ver }; cc.suites = { su.id }; cc.auth = sc.auth = su.auth;
-    cc.entropy_stream = 1; sc.entropy_stream = 2; cc.client_auth = sc.client_auth = cauth;
+    cc.entropy_stream = 1; sc.entropy_stream = 2; cc.client_auth = sc.client_auth = cauth; sc.cert_cb = cb_strict;
     if (p.s.open(sc) < 0 || p.c.open(cc) < 0) throw Discard{};
     Endpoint &V = vclient ? p.c : p.s, &P = vclient ? p.s : p.c;
     Mon mon; mon.V = &V; mon.desc = desc;
